@@ -57,8 +57,17 @@ def as_str_enum(value):
     return _ENUMS[value]
 
 
+_POINT_SUBCLASS = []
+
+
 def real_point(spec):
     from tinyflux import Point
+
+    if spec.get("subclass"):
+        # an application's own subclass of Point (adds behaviour, no state): it is a Point in every respect
+        if not _POINT_SUBCLASS:
+            _POINT_SUBCLASS.append(type("AppPoint", (Point,), {"__slots__": (), "describe": lambda self: f"{self.measurement}@{self.time}"}))
+        Point = _POINT_SUBCLASS[0]
 
     kw = {}
     if spec.get("t") is None and spec.get("bare"):
@@ -352,6 +361,21 @@ class Session:
             except _RealRaised as e:
                 out.exc = e.exc
         out.post_valid = self.valid()
+        self.log.append(op)
+        return out
+
+    def do_in_with_block(self, op):
+        """The operation issued inside `with db:` - an exception raised in the block must come out of the with
+        statement (the database is closed on the way out)."""
+        out = Outcome(op)
+        out.pre_valid = self.valid()
+        with quiet_stdout():
+            try:
+                with self.db:
+                    self._do(op, out)
+            except _RealRaised as e:
+                out.exc = e.exc
+        out.post_valid = None
         self.log.append(op)
         return out
 
